@@ -38,6 +38,9 @@ pub(crate) fn parse_number<R: Read>(scanner: &mut Scanner<R>) -> Result<Number, 
     );
 
     match number.parse::<f64>() {
+        Ok(num) if !num.is_finite() => {
+            scanner.make_generic_err(&format!("Number out of range '{number}'."))
+        }
         Ok(num) => Ok(Number { value: num, unit }),
         Err(_) => scanner.make_generic_err(&format!("Invalid number format '{number}'")),
     }
@@ -93,6 +96,10 @@ fn parse_decimal_str<R: Read>(scanner: &mut Scanner<R>) -> Result<(String, f64),
     let str = String::from_utf8_lossy(&id).to_string();
 
     match str.parse::<f64>() {
+        // A literal beyond the floating point range is not a number that can be written back
+        Ok(num) if !num.is_finite() => {
+            scanner.make_generic_err(&format!("Decimal out of range '{str}'."))
+        }
         Ok(num) => Ok((str, num)),
         Err(err) => {
             scanner.make_generic_err(&format!("Invalid decimal '{str}'. Parse error: {err}"))
